@@ -47,6 +47,14 @@ def set_module_consts(ctx: Context) -> None:
 def _lit(e: ast.AST) -> ast.AST:
     if isinstance(e, ast.Name) and e.id in _CONSTS:
         return _CONSTS[e.id]
+    # a local that names a part of the subject (`name = v.name`)
+    fn = _CUR_FN[0] if "_CUR_FN" in globals() else None
+    if isinstance(e, ast.Name) and fn is not None and \
+            e.id not in fn.params():
+        from sa.norm import expand
+        x = expand(fn, e)
+        if isinstance(x, ast.Attribute):
+            return x
     return e
 
 
@@ -118,18 +126,60 @@ SCENARIOS = [
 ]
 
 
+_CTX: list = [None]
+
+
+def raw_outcome(fn: FunctionInfo, vals: dict, depth: int = 0) -> tuple[bool, bool]:
+    """(returns normally, reaches a raise) of fn under one scenario. A call
+    that hands fn's subject to another guard function of the package (a
+    validator delegating to a sibling validator) is evaluated by that
+    function's outcome: when it can only raise, the call does not return."""
+    _CUR_FN[0] = fn
+    v = Valuation(fn, path_atom, vals)
+    from sa.constflow import refine
+    cfg = refine(fn, {}, oracle=v.truth)
+    noexc = lambda a, b, lab: lab != "exc"  # noqa: E731
+    live = cfg.reachable([cfg.entry], follow=noexc)
+    raises = any(n.kind == "stmt" and isinstance(n.ast, ast.Raise)
+                 for n in live)
+    ctx = _CTX[0]
+    if ctx is not None and depth < 3:
+        params = [p for p in fn.params() if p not in ("cls", "self")]
+        dead_calls = []
+        for n in cfg.calls():
+            if n not in live or not params:
+                continue
+            for g in ctx.internal_targets(fn, n.ast):
+                if g is fn or isinstance(g.node, ast.Lambda):
+                    continue
+                gp = [p for p in g.params() if p not in ("cls", "self")]
+                from sa.rules.common import passed_expr
+                e = passed_expr(n.ast, g, gp[0]) if gp else None
+                if e is None or not subject_ok_in(fn, e, params[0]):
+                    continue
+                g_ret, g_raise = raw_outcome(g, vals, depth + 1)
+                _CUR_FN[0] = fn
+                if g_raise:
+                    raises = True
+                if not g_ret:
+                    dead_calls.append(n)
+        if dead_calls:
+            live = cfg.reachable([cfg.entry], avoiding=dead_calls,
+                                 follow=noexc)
+    return cfg.exit in live, raises
+
+
+def subject_ok_in(fn: FunctionInfo, e: ast.AST, given: str) -> bool:
+    from sa import norm as _norm
+    return _norm.canon(fn, e) == given
+
+
 def guard_outcomes(fn: FunctionInfo, stop_at=None) -> list[tuple[str, str, bool, str]]:
     """(scenario, required, ok, detail) for the three path scenarios."""
     out = []
     _CUR_FN[0] = fn
     for label, vals, required in SCENARIOS:
-        v = Valuation(fn, path_atom, vals)
-        from sa.constflow import refine
-        cfg = refine(fn, {}, oracle=v.truth)
-        live = cfg.reachable([cfg.entry], follow=lambda a, b, lab: lab != "exc")
-        returns = cfg.exit in live
-        raises = any(n.kind == "stmt" and isinstance(n.ast, ast.Raise)
-                     for n in live)
+        returns, raises = raw_outcome(fn, vals)
         if required == "raise":
             ok = not returns and raises
         else:
@@ -161,6 +211,7 @@ def run(ctx: Context, rep) -> None:
         "sub-directory argument has the same two-atom guard before it is "
         "stored")
     set_module_consts(ctx)
+    _CTX[0] = ctx
     fields = path_fields(ctx)
     if len(fields) < PATH_FIELDS_FLOOR:
         raise AnalysisError(f"C17.validate: {len(fields)} Path fields found, "
@@ -202,9 +253,8 @@ def run(ctx: Context, rep) -> None:
             # returns its argument unchanged
             params = [p for p in m.params() if p not in ("cls", "self")]
             rets = [n for n in m.body_nodes() if isinstance(n, ast.Return)]
-            ok = bool(params) and bool(rets) and all(
-                isinstance(r.value, ast.Name) and r.value.id == params[0]
-                for r in rets)
+            from sa.rules.common import identity_validator
+            ok = identity_validator(ctx, m)
             rep.ob("C17.validate", ok, loc=m.loc(), where=m.qualname,
                    construct=f"return {params[0] if params else '?'}",
                    message="validator returns the validated value unchanged")
